@@ -21,16 +21,18 @@ def mutated(m):
     return m['old'].join(parts[:k+1]) + m['new'] + m['old'].join(parts[k+1:])
 
 def overlay_for(name):
-    d = '/verif/.work/mut/' + name.replace(':', '_')
+    d = '/verif/.work/mut/' + name.replace(':', '_').replace('/', '_')
     shutil.rmtree(d, ignore_errors=True)
     os.makedirs(d)
     ov = {}
-    if name.startswith('seeded:') or name.startswith('revert:'):
+    if name.startswith('seeded:') or name.startswith('revert:') or name.startswith('patch:'):
         if name.startswith('revert:'):
             c = name[7:]
             patch = os.path.join(d, 'revert.diff')
             with open(patch, 'w') as f:
                 f.write(subprocess.check_output(['git', '-C', '/repo', 'diff', c, c + '^', '--', '.', ':!*_test.go'], text=True))
+        elif name.startswith('patch:'):
+            patch = name[6:]
         else:
             patch = '/verif/seeded/' + name[7:] + '/patch.diff'
         files = re.findall(r'^\+\+\+ b/(\S+)', open(patch).read(), re.M)
